@@ -27,6 +27,41 @@ pub type T = RaftTypeConfig<FileStorageEngine, FileStateMachine>;
 pub type M = <T as TypeConfig>::M;
 pub type TR = <T as TypeConfig>::TR;
 
+unsafe extern "C" {
+    fn dup(fd: i32) -> i32;
+    fn dup2(old: i32, new: i32) -> i32;
+    fn close(fd: i32) -> i32;
+}
+
+/// The engine prints banners with `println!` (e.g. "LEADER: ACCEPTING NEW NODE"); `family_main` writes the
+/// result lines to the same stdout. While a case runs, fd 1 points to /dev/null so that those banners
+/// cannot land in the middle of a result line. (stdout is flushed first: a pending partial line goes to
+/// the real fd before the switch.)
+pub struct StdoutGag {
+    saved: i32,
+}
+impl StdoutGag {
+    pub fn new() -> StdoutGag {
+        use std::io::Write;
+        use std::os::fd::AsRawFd;
+        let _ = std::io::stdout().flush();
+        let null = std::fs::OpenOptions::new().write(true).open("/dev/null").unwrap();
+        let saved = unsafe { dup(1) };
+        unsafe { dup2(null.as_raw_fd(), 1) };
+        StdoutGag { saved }
+    }
+}
+impl Drop for StdoutGag {
+    fn drop(&mut self) {
+        use std::io::Write;
+        let _ = std::io::stdout().flush();
+        unsafe {
+            dup2(self.saved, 1);
+            close(self.saved);
+        }
+    }
+}
+
 pub fn rt() -> &'static tokio::runtime::Runtime {
     static RT: OnceLock<tokio::runtime::Runtime> = OnceLock::new();
     RT.get_or_init(|| tokio::runtime::Builder::new_current_thread().enable_all().build().unwrap())
